@@ -84,6 +84,32 @@ def fixed_programs():
                     return r
                 body = ("call", "G", [("var", "X"), rebuild(sp)], None)
                 out.append({"params": mp, "names": [], "funs": [f], "consts": [], "macros": [], "body": body, "tag": "destr_%s_%s_%s" % (sname, kind, pick)})
+    # an @ capture used inside a branch of an if, bound to an argument with more structure than the sub-pattern names
+    for kind in ("defun", "inline"):
+        for shape in ("extra", "exact"):
+            pick = {"name": "PICK", "kind": kind, "params": ("p", [("n", "A", "I"), ("@", "Z", ("p", [("n", "B", "I"), ("n", "C", "I")], None))], None), "names": [],
+                    "body": ("if", ("var", "A"), ("var", "Z"), ("list", [("var", "B"), ("var", "C")])), "rtype": "L"}
+            arg = ("list", [("var", "Y"), ("int", 3)] + ([("int", 4), ("var", "X")] if shape == "extra" else []))
+            out.append({"params": ("p", [("n", "X", "I"), ("n", "Y", "I")], None), "names": [], "funs": [pick], "consts": [], "macros": [],
+                        "body": ("call", "PICK", [("var", "X"), arg], None), "tag": "atcapture_%s_%s" % (shape, kind)})
+    # conditions that are zero-valued NON-EMPTY literal atoms (true for the consensus evaluator), decided at compile
+    # time in the main expression / an inline function, at run time through a defun
+    for lit in (b"\x00", b"\x00\x00"):
+        mp2 = ("p", [("n", "A", "I"), ("n", "B", "I")], None)
+        out.append({"params": mp2, "names": [], "funs": [], "consts": [], "macros": [], "body": ("if", ("hex", lit), ("var", "A"), ("var", "B")), "tag": "zerocond_main_%d" % len(lit)})
+        for kind in ("defun", "inline"):
+            f = {"name": "SEL", "kind": kind, "params": ("p", [("n", "C", "I"), ("n", "X", "I"), ("n", "Y", "I")], None), "names": [], "body": ("if", ("var", "C"), ("var", "X"), ("var", "Y")), "rtype": "I"}
+            out.append({"params": mp2, "names": [], "funs": [f], "consts": [], "macros": [], "body": ("call", "SEL", [("hex", lit), ("var", "A"), ("var", "B")], None), "tag": "zerocond_%s_%d" % (kind, len(lit))})
+    # functions whose compiled code is identical (one symbol-table key for both) but whose parameter lists differ
+    def fn(name, params, body, kind="defun"):
+        return {"name": name, "kind": kind, "params": ("p", [("n", x, "I") for x in params], None), "names": [], "body": body, "rtype": "I"}
+    mp = ("p", [("n", "X", "I"), ("n", "Y", "I")], None)
+    out.append({"params": mp, "names": [], "funs": [fn("INC", ["N"], ("op", "+", [("var", "N"), ("int", 1)])), fn("BUMP", ["M"], ("op", "+", [("var", "M"), ("int", 1)]))],
+                "consts": [], "macros": [], "body": ("op", "+", [("call", "INC", [("var", "X")], None), ("call", "BUMP", [("var", "Y")], None)]), "tag": "samecode_names"})
+    out.append({"params": mp, "names": [], "funs": [fn("DBL", ["A"], ("op", "*", [("var", "A"), ("int", 2)])), fn("DBL2", ["P", "Q"], ("op", "*", [("var", "P"), ("int", 2)]))],
+                "consts": [], "macros": [], "body": ("op", "+", [("call", "DBL", [("var", "X")], None), ("call", "DBL2", [("var", "Y"), ("int", 7)], None)]), "tag": "samecode_shape"})
+    out.append({"params": mp, "names": [], "funs": [fn("DBL2", ["P", "Q"], ("op", "*", [("var", "P"), ("int", 2)])), fn("DBL", ["A"], ("op", "*", [("var", "A"), ("int", 2)]))],
+                "consts": [], "macros": [], "body": ("op", "-", [("call", "DBL2", [("var", "Y"), ("int", 7)], None), ("call", "DBL", [("var", "X")], None)]), "tag": "samecode_shape_rev"})
     return out
 
 
